@@ -14,6 +14,8 @@ GEN = {
                  "-funcs", "reduceOnce,add,sub,neg,mul,power2Round,scalePower2,divBy2Gamma2,decompose,highBits,lowBits,"
                            "makeHint,useHint,centeredAbs,centeredMax"],
     },
+    "SliceFacts": {"owner": ["C19"], "tool": "extract", "args": ["slicefacts"]},
+    "MutFacts": {"owner": ["C18"], "tool": "extract", "args": ["mutfacts"]},
     "EnumTables": {
         "owner": ["C12"], "tool": "extract",
         "args": ["enumtables"],
